@@ -204,6 +204,7 @@ func (x *Exec) bindLets(con *Contract, env *SpecEnv, key string) {
 		if err != nil {
 			panic(fmt.Sprintf("contract error: %s let %s: %v", key, l.Name, err))
 		}
+		x.autoUnfold(t.S, 2)
 		t = x.C.Def("let_"+l.Name, t)
 		env.Vars[l.Name] = SpecVar{T: t}
 	}
@@ -225,6 +226,12 @@ func (x *Exec) applyContract(fr *Frame, callee *ssa.Function, con *Contract, arg
 	}
 	// havoc modifies
 	x.applyModifies(con, env, pre, st, key)
+	for _, m := range con.Modifies {
+		if !strings.HasPrefix(m.Comp, "G_calls_") && m.Comp != "G_held" {
+			x.epochReset(st)
+			break
+		}
+	}
 	a0 := x.comp(pre, "alloc")
 	na := x.C.Fresh("alloc_c", SInt)
 	x.C.Assume(BoolLit(true), T(SBool, app(">=", na.S, a0.S)))
@@ -540,6 +547,7 @@ func (x *Exec) doAppend(fr *Frame, cc *ssa.CallCommon, args []Value, pos token.P
 	isNoop := T(SBool, app("=", n.S, "0"))
 	x.setComp(st, memName, Ite(isNoop, mem, Store(mem, arr, row)))
 	x.setComp(st, "alloc", Ite(fits, fa, T(SInt, app("+", fa.S, "1"))))
+	x.epochReset(st)
 	x.C.Assume(bc, T(SBool, fmt.Sprintf("(<= (+ (s-off %s) %s) 72057594037927936)", s.S, newLen.S)))
 	return VT(res, st0)
 }
